@@ -270,6 +270,7 @@ type scen struct {
 	ks      []int
 	dirty   []int // dirty pooled bitmap capacities (t2j/cut) or native cache capacities (j2t)
 	nested  *nestedSpec
+	custom  func() core.Result // a hand-written scenario (see base.go)
 }
 
 type caseDesc struct {
@@ -367,6 +368,9 @@ func (s *scen) message() *tbin.Val {
 }
 
 func (s *scen) desc() interface{} {
+	if s.custom != nil {
+		return caseDesc{Side: s.side, IDL: baseMainIDL, Options: s.optName}
+	}
 	in := ""
 	if s.side == "j2t" {
 		in = string(s.jsonDoc())
@@ -650,6 +654,9 @@ func (s *scen) judgeJSON(out []byte) *verdict {
 }
 
 func (s *scen) run() core.Result {
+	if s.custom != nil {
+		return s.custom()
+	}
 	r := s.run0()
 	s.httpTwin(&r)
 	return r
